@@ -96,6 +96,24 @@ pub fn run_case(c: &Sexp) -> R<Sexp> {
             };
             Ok(ok(r))
         },
+        // Goal::get_ground_term, Operator::len, Operator::get_subgoal
+        ("goal-ground-term", 4) => {
+            let idx = l[1].atom()?.parse::<usize>().map_err(|e| e.to_string())?;
+            let g = goal_of(&l[2])?;
+            let ss = ss_of(&l[3])?;
+            Ok(ok(match g.get_ground_term(idx, ss) { None => a("none"), Some(t) => L(vec![a("some"), sexp_of_term(&t)]) }))
+        },
+        ("op-len", 2) => match goal_of(&l[1])? {
+            Goal::OperatorGoal(o) => Ok(ok(A(o.len().to_string()))),
+            _ => Ok(a("not-an-operator")),
+        },
+        ("op-subgoal", 3) => {
+            let idx = l[1].atom()?.parse::<usize>().map_err(|e| e.to_string())?;
+            match goal_of(&l[2])? {
+                Goal::OperatorGoal(o) => Ok(ok(sexp_of_goal(&o.get_subgoal(idx)))),
+                _ => Ok(a("not-an-operator")),
+            }
+        },
         ("replace", 3) => {
             let t = term_of(&l[1])?;
             let ss = ss_of(&l[2])?;
